@@ -394,6 +394,44 @@ def mk_determinism(which):
   return h_determinism
 
 
+def mk_shortest_path_corridors(H, W):
+    """long winding corridors (the shortest path is much longer than the grid's perimeter): serpentine walls on every other row (or
+    column) with the gap at alternating ends, each gap position symbolic between the two ends; the Exit in a corner, the agent anywhere"""
+    from gym_gridverse.agent import Agent
+    from gym_gridverse.geometry import Orientation
+    from gym_gridverse.grid import Grid
+
+    def h(sx):
+        by_rows = sx.choice('walls', ['rows', 'columns'])
+        n_lines, length = (H, W) if by_rows == 'rows' else (W, H)
+        rows = [[Floor() for _ in range(W)] for _ in range(H)]
+        for k, line in enumerate(range(1, n_lines, 2)):
+            flip = bool(sx.bool(f'gap{line}'))
+            gap = (length - 1) if (k % 2 == 0) != flip else 0
+            for j in range(length):
+                if j != gap:
+                    y, x = (line, j) if by_rows == 'rows' else (j, line)
+                    rows[y][x] = Wall()
+        g = Grid(rows)
+        g[0, 0] = Exit()
+        ay = int(sx.int('ay', 0, H - 1))
+        ax = int(sx.int('ax', 0, W - 1))
+        sx.assume(not isinstance(rows[ay][ax], Wall))
+        a = sx.choice('a', [Action.MOVE_FORWARD, Action.MOVE_BACKWARD, Action.MOVE_LEFT, Action.MOVE_RIGHT])
+        t0 = State(g, Agent(Position(ay, ax), sx.choice('o', [Orientation.F, Orientation.R])))
+        t1 = transition_with_copy(transition('move_agent'), t0, a)
+        got = RF.getting_closer_shortest_path(t0, a, t1, object_type=Exit, reward_closer=0.25, reward_further=-0.75)
+        passable = [[not blocks_movement(t0.grid.objects[y][x]) for x in range(W)] for y in range(H)]
+        dist = bfs(passable, (0, 0), H, W)
+        d0 = dist.get((ay, ax), math.inf)
+        d1 = dist.get((int(t1.agent.position.y), int(t1.agent.position.x)), math.inf)
+        exp = 0.25 if d1 < d0 else -0.75 if d1 > d0 else 0.0
+        sx.cover('corridor', nontrivial=d0 != d1)
+        sx.note('longest', max(v for v in dist.values()))
+        sx.check(got == exp, 'shortest-path-shaping-has-the-sign-of-the-change-in-path-length', f'agent {(ay, ax)} {a.name}: d {d0}->{d1} got {got} expected {exp}')
+    return h
+
+
 def h_shortest_path_other_shapes(sx):
     """the shortest-path shaping is a function of the triple alone: the same question asked after evaluating the reward on a
     grid of ANOTHER shape with the same row-major walkability pattern (a memo keyed too coarsely would collide) gets the oracle's answer"""
@@ -482,6 +520,8 @@ def _obligations(tier):
         obs.append(Obligation(f'reach_exit_memory-{H}x{W}', mk_memory(H, W), dict(H=H, W=W, alphabet=[e[0] for e in MEM])))
     for n in range(0, 5 if q else 6):
         obs.append(Obligation(f'combinators-{n}', mk_combinators(n), dict(components=n)))
+    for (H, W) in ([(5, 5), (7, 7), (5, 9), (9, 9)] if q else [(5, 5), (7, 7), (5, 9), (9, 5), (9, 9), (11, 11), (13, 13), (7, 13)]):
+        obs.append(Obligation(f'shortest-path-corridors-{H}x{W}', mk_shortest_path_corridors(H, W), dict(H=H, W=W, layout='serpentine walls on odd rows or columns, symbolic gap ends')))
     obs.append(Obligation('shortest-path-after-other-shapes', h_shortest_path_other_shapes, dict(shapes='2x6, 3x4, 4x3, 6x2 with equal row-major walkability')))
     obs.append(Obligation('wiring-functional_step', h_wiring))
     for which in ['reach_exit', 'bump_into_wall', 'actuate_door', 'pickndrop', 'bump_moving_obstacle']:
